@@ -36,6 +36,13 @@ WALK_INV = ["self.N[node]", "node.path == take(prefix, g_i)"]
 
 MISS_HINT = "implies(self.V[key(prefix)], self.at[take(prefix, g_i + 1)] != null)"
 
+INIT_GHOST = [
+    "self.__root.path = eps",
+    "self.N = store(constmap('Ref[TrieDictNode]', False), self.__root, True)",
+    "self.at = store(constmap('Key', null), eps, self.__root)",
+    "self.V = constmap('Key', False)",
+]
+
 LINK_GHOST = [
     "child.path = snoc(node.path, token)",
     "self.N = store(self.N, child, True)",
@@ -58,6 +65,7 @@ MODULE = {
             "fields": {"__root": NODE},
             "ghost": {"N": "Map[Ref[TrieDictNode],Bool]", "at": "Map[Key,Ref[TrieDictNode]]",
                       "V": "Map[Key,Bool]", "M": "Map[Key,Val]"},
+            "ghost_init": INIT_GHOST,
         },
     },
     "macros": {
@@ -70,6 +78,11 @@ MODULE = {
         "card": (["s"], "cext(s.V, eps) + b2i(s.V[eps])"),
     },
     "functions": {
+        "TrieDict.__init__": {
+            "types": COMMON_TYPES, "returns": "NoneType", "modifies": ["*"],
+            "ensures": ["Inv(self)", "Leafy(self)", "forall('k', not self.V[k], self.V[k])"],
+            "ghost_after": {"self.__root = TrieDictNode()": INIT_GHOST},
+        },
         "TrieDict.get": {
             "types": COMMON_TYPES,
             "requires": ["Inv(self)"],
